@@ -43,6 +43,23 @@ THEOREMS = [
     "Ural.Props.C13.lru_prefix_of_under_psl_string",
     "Ural.Props.C13.kf_inside_suffix_psl",
     "Ural.Props.C08.walk_eq_psl",
+    # the clause "the serialized LRU of u is a string prefix of that of v" for what lru_stems / url_to_lru RETURN
+    # (empty path stems kept): true for UnderRaw, false for Under (witness)
+    "Ural.Lru.keyStemsG_prefix_iff",
+    "Ural.Props.C13.keyG_prefix_of_under",
+    "Ural.Props.C13.under_of_underRaw",
+    "Ural.Props.C13.stems_prefix_of_under_raw",
+    "Ural.Props.C13.lru_prefix_of_under_raw",
+    "Ural.Props.C13.url_to_lru_prefix_of_under_string",
+    "Ural.Props.C13.raw_lru_not_prefix_witness",
+    "Ural.Props.C13.keyG_prefix_of_under_sub",
+    "Ural.Props.C13.stems_prefix_of_under_raw_psl",
+    "Ural.Props.C13.lru_prefix_of_under_raw_psl",
+    "Ural.Props.C13.url_to_lru_prefix_of_under_psl_string",
+    # no hypothesis about split_suffix left in the serialisation clauses (equal hosts of any kind included)
+    "Ural.Props.C13.split_nobar_psl",
+    "Ural.Props.C13.stems_ok_psl",
+    "Ural.Props.C13.url_to_lru_prefix_iff_psl",
 ]
 EXTRA_IMPORTS = ["UralModel.Props.C13Psl"]
 TABLE_OBLIGATIONS = [
@@ -69,7 +86,8 @@ RULE = (
     "every pair the Lean model (fed the real urlsplit components and split_suffix answers) must "
     "return the same verdicts as the implementation: Under (as written / lower-cased hosts) against "
     "the independent Python reading, prefix of cleaned stems, prefix of raw stems, string prefix of "
-    "url_to_lru, string prefix of the cleaned serialisation, names-hypothesis. Non-trivial case = "
+    "url_to_lru, string prefix of the cleaned serialisation, names-hypothesis, Under with the path segments read as "
+    "they are (UnderRaw, the hypothesis of the theorems about the strings url_to_lru returns). Non-trivial case = "
     "the batch contains a pair with v strictly under u and a pair not under u; distinct = distinct "
     "(u, batch, mode). Pair counts are in the distribution (pairs, pairs-under, pairs-prefix, ...). "
     "Public-suffix-list families (cases with 'psl', right after the corpus; the corpus goes the same way): from the "
@@ -104,19 +122,31 @@ TRUSTED = [
     for t in B.TRUSTED
 ]
 ASSUMPTIONS = [
-    "C08 clause used as hypothesis (SplitLaw) by the theorems with an abstract split_suffix: its parts re-join to the lower-cased host; checked on every URL of this run. The *_psl theorems assume nothing about split_suffix (it is the model of suffix_trie.py on the regenerated list: splitLaw_psl, sameSuffixSplit_of_outside); what ties them to the code is the per-run obligation that the real split_suffix answers like that model on every host of the public-suffix-list families and of the corpus (op lru_pairs_psl, a disagreement is a broken correspondence)",
+    "C08 clause used as hypothesis (SplitLaw) by the theorems with an abstract split_suffix: its parts re-join to the lower-cased host; checked on every URL of this run. The *_psl theorems assume nothing about split_suffix (it is the model of suffix_trie.py on the regenerated list: splitLaw_psl, sameSuffixSplit_of_outside, split_nobar_psl); what ties them to the code is the per-run obligation that the real split_suffix answers like that model on every host of the public-suffix-list families and of the corpus (op lru_pairs_psl, a disagreement is a broken correspondence)",
     "reading: 'subdomain' = whole-label suffix of the dotted host between DNS names (an IPv4 literal / bracketed literal has no subdomains: hypothesis NamesOrEqual); 'extends / may add' presuppose that u has nothing later in the hierarchy host -> path -> query -> fragment; the forward law is demanded for u without userinfo (userinfo stems come last; the quantifier's universe has none); empty path stems aside = clean_trailing_path on both sides; suffix-aware converse compares hosts lower-cased; 'DNS name', 'IP literal' and 'public suffix' are read by the oracle independently of ural (narrow special-host definition and the publicsuffix.org algorithm scanned over the regenerated list, harness/props/C08.py), never from is_special_host / split_suffix",
+    "reading of the clause 'the serialized LRU of u is a string prefix of that of v': for the string url_to_lru RETURNS (empty path stems kept) it is demanded — and proved — when v's path segments read as they are, empty ones included, extend u's (UnderRaw; implies Under); with 'empty path stems aside' carried over from the first clause it is stated — and proved — for serialize_lru(clean_trailing_path(lru_stems(.))), a string no ural function returns. For url_to_lru under plain Under it is FALSE (url_to_lru('http://a.com/') = 's:http|h:com|h:a|p:|' is no prefix of url_to_lru('http://a.com/x') = 's:http|h:com|h:a|p:x|': theorem raw_lru_not_prefix_witness) and not demanded",
 ]
 UNPROVED = (
     "the *_string theorems state the laws for URL strings with the modelled parser inside (the Lean parser is compared "
-    "with CPython on every URL of the universe, not proved equal to it); forward direction with suffix_aware=True when the ancestor's host lies INSIDE the public suffix of the "
+    "with CPython on every URL of the universe, not proved equal to it); the clause 'the serialized LRU of u is a string prefix "
+    "of that of v' is proved for url_to_lru itself only under UnderRaw (path segments as they are: lru_prefix_of_under_raw, "
+    "url_to_lru_prefix_of_under_string, *_raw_psl*), and under Under only for the serialisation of the CLEANED stems "
+    "(lru_prefix_of_under*, a string no ural function returns); for url_to_lru under Under it is false as soon as u has an empty "
+    "path stem that v does not continue (http://a.com/ vs http://a.com/x: raw_lru_not_prefix_witness); "
+    "forward direction with suffix_aware=True when the ancestor's host lies INSIDE the public suffix of the "
     "descendant's host and the two public suffixes differ (http://uk vs http://a.co.uk; http://kawasaki.jp vs "
-    "http://city.kawasaki.jp): false by design (theorems fullForwardSuffixAware_false, kf_inside_suffix_psl, known "
-    "finding KF-C13-1). The region is delimited by the public suffix LIST (outsideSuffixT / SameSuffixSplit of the "
+    "http://city.kawasaki.jp): false by design (theorems fullForwardSuffixAware_false, kf_inside_suffix_psl — Lean witnesses on "
+    "TOY suffix lists (a hand-written split / a 7-rule list); the finding is reproduced on the implementation with the real list "
+    "on every run —, known finding KF-C13-1). The region is delimited by the public suffix LIST (outsideSuffixT / SameSuffixSplit of the "
     "model of suffix_trie.py in Lean, the publicsuffix.org algorithm scanned over the regenerated list in the oracle), "
     "not by the answers of the implementation's split_suffix; outside of it the law is proved "
-    "(stems_prefix_of_under_psl: DNS names without leading / trailing dot and without '%') and demanded by the oracle. "
-    "It is counted in the distribution as 'pairs-kf-region' and explored by the oracle only for the converse"
+    "(stems_prefix_of_under_psl: equal hosts of any kind, or DNS names without leading / trailing dot and without '%') and demanded by the oracle. "
+    "It is counted in the distribution as 'pairs-kf-region' and explored by the oracle only for the converse. "
+    "The suffix-aware converse (under_of_stems_prefix_sa) takes C08's re-join clause for both hosts as a hypothesis (SplitLaw; a theorem for "
+    "suffix_trie.py on DNS names: splitLaw_psl) and is false without it: http://a.co.uk. has the suffix-aware stems of http://a.co.uk "
+    "(converse_needs_splitLaw; the loss KF-C12-2; hosts with a trailing dot are outside the universe of the quantifier). "
+    "url_to_lru_prefix_iff (stem prefix <=> string prefix of url_to_lru) is for suffix_aware=False and any split_suffix; "
+    "url_to_lru_prefix_iff_psl for both modes with suffix_trie.py inside"
 )
 
 SCHEMES = ["http", "https"]
@@ -162,6 +192,10 @@ CORPUS = [
     {"u": "http://lemonde.fr", "vs": ["http://lemonde.fr.evil.com", "http://www.lemonde.fr/a", "http://lemonde.fra", "http://xlemonde.fr"], "sa": False},
     {"u": "http://lemonde.fr", "vs": ["http://lemonde.fr.evil.com", "http://www.lemonde.fr/a", "http://lemonde.fra", "http://xlemonde.fr"], "sa": True},
     {"u": "http://a.com/a", "vs": ["http://a.com/ab", "http://a.com/a/b", "http://a.com/a//b", "http://a.com/a/", "http://a.com//a"], "sa": False},
+    # the string-prefix clause on what url_to_lru returns: trailing slash / empty segments (raw_lru_not_prefix_witness)
+    {"u": "http://a.com/", "vs": ["http://a.com/x", "http://a.com//x", "http://a.com/", "http://a.com/?q=1", "http://www.a.com/"], "sa": False},
+    {"u": "http://a.com/a/", "vs": ["http://a.com/a/b", "http://a.com/a//b", "http://a.com/a/?q#f", "http://a.com/a"], "sa": True},
+    {"u": "http://a.co.uk", "vs": ["http://www.a.co.uk//x", "http://a.co.uk/", "http://a.co.uk//"], "sa": True},
     # IP pseudo-ancestors, localhost, bracketed
     {"u": "http://3.4", "vs": ["http://1.2.3.4", "http://2.3.4", "http://3.4/x"], "sa": False},
     {"u": "http://1.2.3.4", "vs": ["http://a.1.2.3.4", "http://1.2.3.4/x", "http://1.2.3.4:80"], "sa": False},
@@ -424,6 +458,30 @@ def under_by(f, A, Bv):
     return True
 
 
+def raw_segs(path):
+    return path.split("/")[1:]
+
+
+def under_raw(A, Bv):
+    """v lies under u with the path segments read as they are, empty ones included (Lean: UnderRaw): the hierarchy for
+    which the RAW lru_stems(u) / url_to_lru(u) is demanded to be a prefix"""
+    hu, pu = spec_host_port(A[1])
+    hv, pv = spec_host_port(Bv[1])
+    su, sv = raw_segs(A[2]), raw_segs(Bv[2])
+    qu, fu = A[3], A[4]
+    if A[0] != Bv[0] or pu != pv:
+        return False
+    if not (hu == hv or (su == [] and qu == "" and fu == "" and strict_sub(hu, hv))):
+        return False
+    if not (su == sv or (qu == "" and fu == "" and sv[: len(su)] == su)):
+        return False
+    if not (qu == Bv[3] or (qu == "" and fu == "")):
+        return False
+    if not (fu == Bv[4] or fu == ""):
+        return False
+    return True
+
+
 def ident(x):
     return x
 
@@ -482,7 +540,7 @@ def canon(op, out):
     if op.get("f") == "lru_pairs_psl" and isinstance(out, dict) and "rows" in out:
         # `outside` is compared on DNS names only (the theorem uses it there; elsewhere the two notions of
         # "special host" — is_special_host on .hostname vs the oracle's narrow one — need not agree)
-        return {"u_split": out.get("u_split"), "rows": [r[:8] + [bool(r[8]) and bool(r[9])] + r[9:] for r in out["rows"]]}
+        return {"u_split": out.get("u_split"), "rows": [r[:9] + [bool(r[9]) and bool(r[10])] + r[10:] for r in out["rows"]]}
     return B.canon(op, out)
 
 
@@ -536,6 +594,7 @@ def impl(case):
             lv.startswith(lu),
             lcv.startswith(lcu),
             label_host(hu) and label_host(hv),
+            under_raw(A, V),
         ]
         if psl:
             # hypotheses of stems_prefix_of_under_psl, read independently from the regenerated list, and
@@ -658,6 +717,12 @@ def pair_verdict(case, v):
                 return "forward: %s lies under %s but stems %r are not a prefix of %r %s" % (v, case["u"], cu, cv, KF_MARK)
         elif not pre:
             return "forward: %s lies under %s but stems %r are not a prefix of %r" % (v, case["u"], cu, cv)
+        # the clause "the serialized LRU of u is a string prefix of that of v" on what url_to_lru RETURNS (empty path
+        # stems kept): demanded when v's path segments, read as they are, extend u's (under_raw; the reading that
+        # demands less — with 'empty path stems aside' carried over to this clause it is false for the real function:
+        # http://a.com/ -> '...|p:|' vs http://a.com/x -> '...|p:x|', Lean raw_lru_not_prefix_witness)
+        elif under_raw(A, V) and not (is_prefix(su, sv) and lv.startswith(lu)):
+            return "forward (raw): %s lies under %s (segments as they are) but url_to_lru %r is not a string prefix of %r" % (v, case["u"], lu, lv)
     # converse
     if pre and not under_by(B.ascii_lower if sa else ident, A, V):
         return "converse: stems %r are a prefix of %r but %s does not lie under %s" % (cu, cv, v, case["u"])
